@@ -10,7 +10,15 @@ use exmex::DeepEx;
 use serde_json::json;
 
 fn subs_histories(tape: &[u32], st: &mut Stats) -> CaseResult {
-    let cfg = HistCfg { prop: "C11", weights: [2, 3, 7, 1, 0, 0, 0], max_steps: 6, check_print: false, check_serde: false, weird_pct: 10 };
+    subs_histories_with(tape, st, 0)
+}
+/// the same histories on operands in which about one node in twelve carries a tower of 14-43 unary
+/// operators (beyond the 16 a node stores inline)
+fn subs_histories_towers(tape: &[u32], st: &mut Stats) -> CaseResult {
+    subs_histories_with(tape, st, 8)
+}
+fn subs_histories_with(tape: &[u32], st: &mut Stats, tower_pct: u32) -> CaseResult {
+    let cfg = HistCfg { prop: "C11", weights: [2, 3, 7, 1, 0, 0, 0], max_steps: 6, check_print: false, check_serde: false, weird_pct: 10, tower_pct: tower_pct };
     let out = run_history(tape, st, &cfg)?;
     st.class_if(out.n_subs >= 1, "a substitution replaced an occurring variable");
     st.class_if(out.subs_self_ref, "a replacement mentions a replaced variable");
@@ -277,6 +285,11 @@ pub fn def() -> PropDef {
                 name: "subs_histories",
                 rule: "tape -> table x pool of 3 expressions over 0-5 variables x 1-6 steps (substitution 7 : binary 3 : unary 2 : conversion 1), results re-enter the pool (repeated substitution); non-trivial = a replaced variable occurs >=2 times and a replacement mentions a replaced variable; distinct by history",
                 kind: Kind::Tape { len: 600, quick: 25_000, thorough: 1_000_000, f: subs_histories },
+            },
+            SubCheck {
+                name: "subs_histories_towers",
+                rule: "as subs_histories with operands in which about one node in twelve carries a tower of 14-43 unary operators (a node stores 16 inline); non-trivial as subs_histories",
+                kind: Kind::Tape { len: 1200, quick: 6250, thorough: 250000, f: subs_histories_towers },
             },
             SubCheck {
                 name: "subs_f64",
